@@ -34,6 +34,7 @@ func (p *Prog) timerEventArgs(st *State, desc string, args []*Expr) string {
 }
 
 func checkC06(c *Check) {
+	c.fsmContracts("C06.3 fsm-effects")
 	p := c.P
 	outer := p.Fn("fsm.openSent")
 	if outer == nil {
